@@ -19,6 +19,7 @@ VALUES = [('red', ['red']), ('1px', ['1px']), ('10px 20px', ['10px', '20px']), (
           ('1px\n  2px', ['1px', '2px']), ('a/b', ['a', 'b']), ('x(y) z(w (v)) u', ['x(y)', 'z(w (v))', 'u']),
           ('"a\\\n;b}"', ['"a\\\n;b}"']), ("'x\\\n{ y: z; }'", ["'x\\\n{ y: z; }'"]), ('"x\\";y" attr(t)', ['"x\\";y"', 'attr(t)']),
           ('variant($bg: darken($c, 5%), $border: $c)', ['variant($bg: darken($c, 5%), $border: $c)']), ('f(a(b), c: d; e)', ['f(a(b), c: d; e)']), ('m((1), x: { y })', ['m((1), x: { y })']),
+          ("f(1 /* don't */)", ["f(1 /* don't */)"]), ('h(/* { */ 3)', ['h(/* { */ 3)']),
           ('"it\'s };"', ['"it\'s };"']), ("'say \"}\" {'", ["'say \"}\" {'"]), ('"a\'" \'b"{\'', ['"a\'"', '\'b"{\''])]
 
 
@@ -30,7 +31,7 @@ def tok_ranges(val, toks, base):
 
 
 # ------------------------------------------------------------------------------------------------- sheets with ground truth
-def gen_sheet(rnd, budget=10, p_nest=.3, max_depth=3):
+def gen_sheet(rnd, budget=10, p_nest=.3, max_depth=3, stmts=0):
     """returns (source, items); item = dict(kind='rule'|'decl', start, end, ...) with children for rules.
     rule: start = selector start, brace = index of '{', close = index of '}', end = close+1
     decl: start = name start, nend = name end, colon, vstart, vend, semi = index of ';', end = semi+1"""
@@ -58,6 +59,13 @@ def gen_sheet(rnd, budget=10, p_nest=.3, max_depth=3):
         d['name'] = name; d['value'] = val; d['tokens'] = tok_ranges(val, toks, d['vstart'])
         return d
 
+    def stmt():
+        # a value-less statement (`@include foo;`): transparent for match / outward, a first child for inward (its name range)
+        d = {'kind': 'stmt'}
+        d['start'] = pos[0]; emit(rnd.choice(['@include foo', '@extend .z', '@include bar($x)', '@content'])); d['nend'] = pos[0]
+        emit(';'); d['end'] = pos[0]
+        return d
+
     def rule(depth):
         r = {'kind': 'rule', 'kids': []}
         sel = rnd.choice(['a', '.b', '#c', 'a:hover', 'x::before', 'ul > li', '@media (min-width: 100px)', '@media screen and (max-width:100px)', 'a[href="{"]', "a[t=';']",
@@ -69,7 +77,8 @@ def gen_sheet(rnd, budget=10, p_nest=.3, max_depth=3):
         ws(); comment()
         while budget_[0] > 0 and rnd.random() < .7:
             budget_[0] -= 1
-            if depth < max_depth and rnd.random() < p_nest: r['kids'].append(rule(depth + 1))
+            if stmts and rnd.random() < stmts: r['kids'].append(stmt())
+            elif depth < max_depth and rnd.random() < p_nest: r['kids'].append(rule(depth + 1))
             else: r['kids'].append(decl())
             ws(); comment()
         r['close'] = pos[0]; emit('}'); r['end'] = pos[0]
@@ -107,7 +116,7 @@ def cases(tier, seed, prop):
                 s, items = gen_sheet(rnd, rnd.randint(8, 16), p_nest=.55, max_depth=5)
                 if len(s) > 420: continue
                 out.append({'s': s, 'g': 'deep-sheet', 'truth': items}); continue
-            s, items = gen_sheet(rnd, rnd.randint(1, 8))
+            s, items = gen_sheet(rnd, rnd.randint(1, 8), stmts=rnd.choice([0, 0, .3]))
             if len(s) > 240: continue
             out.append({'s': s, 'g': 'sheet', 'truth': items})
     return out
@@ -153,7 +162,7 @@ def push(res, r):
 def enclosing(items, pos, acc):
     """path of items strictly containing pos, outermost first"""
     for it in items:
-        if it['start'] < pos < it['end']:
+        if it['kind'] != 'stmt' and it['start'] < pos < it['end']:
             acc.append(it)
             if it['kind'] == 'rule': enclosing(it['kids'], pos, acc)
             return acc
@@ -186,7 +195,7 @@ def oracle_C10(case, pos, m, ow, iw):
                 r = post(it['kids'])
                 if r is not None: return r
                 if it['start'] <= pos <= it['end']: return it
-            elif it['start'] <= pos <= it['vend']: return it
+            elif it['kind'] == 'decl' and it['start'] <= pos <= it['vend']: return it
         return None
     it = post(case['truth'])
     ei = []
@@ -197,6 +206,7 @@ def oracle_C10(case, pos, m, ow, iw):
             push(ei, (it['start'], it['end'])); push(ei, inner(s, it['brace'] + 1, it['close']))
             while it['kind'] == 'rule' and it['kids']:
                 it = it['kids'][0]
+                if it['kind'] == 'stmt': push(ei, (it['start'], it['nend'])); break
                 push(ei, (it['start'], it['end']))
                 if it['kind'] == 'rule': push(ei, inner(s, it['brace'] + 1, it['close']))
                 else: push(ei, inner(s, it['colon'] + 1, it['end'] - 1))
